@@ -548,14 +548,15 @@ class World(object):
         return [n for n in self.notifications if n["body"]["detail"]["status"] != "RUNNING"
                 and (arn is None or n["body"]["detail"]["executionArn"] == arn)]
 
-    def outcome(self, arn):
-        """(status, output-as-json | None, error | None, t) from the last terminal notification, or ("NONE",...)"""
+    def outcome(self, arn, which=0):
+        """(status, output-as-json | None, error | None, t) from the FIRST terminal notification (which=-1: the
+        last one), or ("NONE", ...).  Whether more than one exists is C02's business."""
         terms = self.terminal_notifications(arn)
         if not terms:
             return ("NONE", None, None, None)
-        d = terms[-1]["body"]["detail"]
+        d = terms[which]["body"]["detail"]
         out = json.loads(d["output"]) if d.get("output") is not None else None
-        return (d["status"], out, d.get("error"), terms[-1]["t"])
+        return (d["status"], out, d.get("error"), terms[which]["t"])
 
     def engine_ops(self):
         return [r for r in self.broker.oplog if (r["conn"] or "").startswith("engine:")]
